@@ -219,13 +219,76 @@ func avlCasePre[T comparable](c *core.Ctx, tname string, univ []T, cmp func(a, b
 			fail(op+":pre/post-multiset", fmt.Sprintf("tree %d after %s: pre=%v post=%v are not permutations of %v", li, op, pre, post, l.model))
 			return false
 		}
-		// walks == slices
-		for k, w := range []func(func(T)){l.t.WalkInOrder, l.t.WalkPreOrder, l.t.WalkPostOrder} {
+		// the returned slices are the caller's: overwriting them must not show in any
+		// later observation (a cached or shared backing array would)
+		if len(in) > 0 && r.Chance(1, 3) {
+			ci, cp, co := append([]T{}, in...), append([]T{}, pre...), append([]T{}, post...)
+			for i := range in {
+				in[i], pre[i], post[i] = univ[0], univ[0], univ[0]
+			}
+			in, pre, post = ci, cp, co
+			c.Count("returned_slices_overwritten", 1)
+			if r.Bool() {
+				if in2, pre2, post2 := l.t.SliceInOrder(), l.t.SlicePreOrder(), l.t.SlicePostOrder(); !eqSlice(in2, in) || !eqSlice(pre2, pre) || !eqSlice(post2, post) {
+					fail(op+":slice-after-overwrite", fmt.Sprintf("tree %d after %s: after the caller overwrote the slices returned by Slice*, the next Slice* calls give in=%v pre=%v post=%v instead of in=%v pre=%v post=%v", li, op, in2, pre2, post2, in, pre, post))
+					return false
+				}
+			}
+		}
+		// walks == slices; in a quarter of the observations one callback makes nested
+		// read-only calls on the same tree (a walker that looks things up), which must
+		// neither fail nor disturb the walk in progress
+		walks := []func(func(T)){l.t.WalkInOrder, l.t.WalkPreOrder, l.t.WalkPostOrder}
+		slicesOf := [][]T{in, pre, post}
+		for k, w := range walks {
 			var got []T
-			w(func(v T) { got = append(got, v) })
-			want := [][]T{in, pre, post}[k]
+			nestAt, nestKind := -1, 0
+			if len(in) > 0 && r.Chance(1, 4) {
+				nestAt, nestKind = r.Intn(len(in)), r.Intn(5)
+			}
+			nestMsg := ""
+			w(func(v T) {
+				if len(got) == nestAt {
+					c.Count("nested_readonly_calls_in_walker", 1)
+					switch nestKind {
+					case 0, 1: // a nested walk (same kind / another kind)
+						k2 := k
+						if nestKind == 1 {
+							k2 = (k + 1 + r.Intn(2)) % 3
+						}
+						var inner []T
+						walks[k2](func(v T) { inner = append(inner, v) })
+						if !eqSlice(inner, slicesOf[k2]) {
+							nestMsg = fmt.Sprintf("nested walk %d gives %v, want %v", k2, inner, slicesOf[k2])
+						}
+					case 2:
+						if a, b, cc := l.t.SliceInOrder(), l.t.SlicePreOrder(), l.t.SlicePostOrder(); !eqSlice(a, in) || !eqSlice(b, pre) || !eqSlice(cc, post) {
+							nestMsg = fmt.Sprintf("nested Slice* give in=%v pre=%v post=%v", a, b, cc)
+						}
+					case 3:
+						cl := l.t.Clone()
+						if a := cl.SliceInOrder(); !eqSlice(a, in) || cl.Len() != len(in) {
+							nestMsg = fmt.Sprintf("nested Clone holds %v (Len %d)", a, cl.Len())
+						}
+					case 4:
+						if l.t.Len() != len(in) || !l.t.Contains(in[r.Intn(len(in))]) || l.t.String() != fmt.Sprint(l.model) {
+							nestMsg = "nested Len/Contains/String disagree with the model"
+						}
+					}
+				}
+				got = append(got, v)
+			})
+			want := slicesOf[k]
+			if nestMsg != "" {
+				fail(op+":nested-read-in-walker", fmt.Sprintf("tree %d after %s: inside the callback of walk %d (position %d): %s", li, op, k, nestAt, nestMsg))
+				return false
+			}
 			if !eqSlice(got, want) {
-				fail(op+":walk-vs-slice", fmt.Sprintf("tree %d after %s: walk %d gives %v, slice gives %v", li, op, k, got, want))
+				sig := op + ":walk-vs-slice"
+				if nestAt >= 0 {
+					sig = op + ":walk-disturbed-by-nested-read"
+				}
+				fail(sig, fmt.Sprintf("tree %d after %s: walk %d gives %v, slice gives %v (nested read-only call at position %d, kind %d)", li, op, k, got, want, nestAt, nestKind))
 				return false
 			}
 		}
